@@ -28,47 +28,6 @@ namespace VelaVerif.Props.C12
 open VelaVerif VelaVerif.InPlace
 open VelaVerif.LiveRange (FuseRules ifmToFuseP)
 
-/-- `fused … = some x`: `x` is an operand of the pass, unprotected, with at most one consumer -/
-theorem fused_facts {ru : FuseRules} {g : Graph} {s : St} {d : FuseDesc} {o x : Nat} (hf : fused ru g s d o = some x) :
-    ((s.pass o).ifm = some x ∨ (s.pass o).ifm2 = some x) ∧ (finalCons g s x).length ≤ 1 ∧
-    ((ru.memcpyWp = true ∨ (d.elementwise = true ∧ d.varWrite = false)) → s.wp x = false) ∧
-    ((ru.elementwiseVar = true ∧ ru.memcpyVar = true) →
-      (((s.pass o).ifm = some x ∧ d.ifmAttr.isVariable = false) ∨ ((s.pass o).ifm2 = some x ∧ d.ifm2Attr.isVariable = false))) := by
-  unfold fused at hf
-  cases hfi : fuseInfo g s d o with
-  | none => simp [hfi] at hf
-  | some fi =>
-    simp only [hfi] at hf
-    cases hfu : ifmToFuseP ru fi with
-    | none => simp [hfu] at hf
-    | some r =>
-      cases r with
-      | none => simp [hfu] at hf
-      | some t =>
-        simp only [hfu, Option.some.injEq] at hf
-        obtain ⟨hop, hc, hw, hv⟩ := ifmToFuseP_facts ru fi t hfu
-        unfold fuseInfo at hfi
-        cases hofm : (s.pass o).ofm with
-        | none => simp [hofm] at hfi
-        | some ofm =>
-          simp only [hofm, Option.some.injEq] at hfi
-          subst hfi
-          simp only [Option.map_eq_some_iff] at hop
-          have key : ∀ (at_ : TAttr) (y : Nat), tensorRec g s at_ y = t → y = x ∧ t.consumers = (finalCons g s x).length ∧
-              t.writeProtected = s.wp x ∧ t.isVariable = at_.isVariable := by
-            intro at_ y hy
-            subst hy
-            simp only [tensorRec] at hf
-            subst hf
-            exact ⟨rfl, rfl, rfl, rfl⟩
-          rcases hop with ⟨y, hy, hrec⟩ | ⟨y, hy, hrec⟩
-          · obtain ⟨rfl, h1, h2, h3⟩ := key _ y hrec
-            exact ⟨Or.inl hy, by omega, fun hh => by rw [← h2]; exact hw hh,
-              fun hh => Or.inl ⟨hy, by rw [← h3]; exact hv hh⟩⟩
-          · obtain ⟨rfl, h1, h2, h3⟩ := key _ y hrec
-            exact ⟨Or.inr hy, by omega, fun hh => by rw [← h2]; exact hw hh,
-              fun hh => Or.inr ⟨hy, by rw [← h3]; exact hv hh⟩⟩
-
 /-- **fuse_safe.**  For every well-formed graph description: when the model lets the operator of NPU pass `o` write its
     OFM over tensor object `x` (elementwise branch under any rules; Memcpy branch under the rule that refuses a write
     protected IFM), `x` is a tensor `a` of the description or the NPU-side clone of one, pass `o` reads `a`, **no pass
@@ -96,19 +55,6 @@ theorem fused_not_variable (ru : FuseRules) (hru : ru.elementwiseVar = true ∧ 
     (d : FuseDesc) (o x : Nat) (hf : fused ru g s d o = some x) :
     ((s.pass o).ifm = some x ∧ d.ifmAttr.isVariable = false) ∨ ((s.pass o).ifm2 = some x ∧ d.ifm2Attr.isVariable = false) :=
   (fused_facts hf).2.2.2 hru
-
-/-- the operator sequence of a graph description, as the Spec reads it -/
-def progOf (g : Graph) (persistent : List Nat) : InPlaceSpec.Prog :=
-  { nodes := g.passes.map fun p => { reads := p.pass.reads, writes := p.pass.outputs },
-    outputs := g.outputs, persistent := persistent }
-
-theorem readsAt_progOf (g : Graph) (pers : List Nat) (q a : Nat) :
-    InPlaceSpec.readsAt (progOf g pers) q a = g.readsAt q a := by
-  unfold InPlaceSpec.readsAt progOf Graph.readsAt Graph.passAt
-  simp only [List.getElem?_map]
-  cases g.passes[q]? with
-  | none => simp [Pass.empty]
-  | some p => rfl
 
 /-- **fuse_dead_after.**  `fuse_safe` in the words of `Spec/InPlace.lean`: the source tensor is dead after the operator
     (no variable tensors declared: that side is `fused_not_variable`). -/
@@ -168,5 +114,115 @@ theorem cpu_side_clone_protected (g : Graph) (hwf : g.wf = true) (s : St) (hs : 
   rcases hinv.clone_kind x hx hxn with ⟨k, _, hops⟩ | ⟨_, _, hw⟩
   · exact absurd hops (hkind k)
   · exact hw
+
+/-- **boundary_reshape_stays_memcpy.**  A memory-only operator on the NPU whose IFM is produced on the CPU is never
+    bypassed, whatever its consumers: the boundary tensor behind a RESHAPE is the IFM of a Memcpy, so its write protection
+    reaches `_get_ifm_to_fuse` only through the Memcpy branch (the branch /verif_patches/C01-27 repairs); an NPU-produced
+    IFM with one consumer is bypassed (no copy, nothing to share). -/
+theorem boundary_reshape_stays_memcpy (n : Nat) : memOnlyFate n true = .memcpy ∧ memOnlyFate 1 false = .bypass ∧
+    (2 ≤ n → memOnlyFate n false = .memcpy) := by
+  refine ⟨by simp [memOnlyFate], by decide, fun h => ?_⟩
+  simp only [memOnlyFate, Bool.or_false, decide_eq_true_eq]
+  rw [if_pos (by omega)]
+
+/-! ## The statement is false of the rules without the two repairs; non-vacuity -/
+
+private def fmAttr (var : Bool := false) : TAttr :=
+  { purpose := .other, inTarget := true, size := 128, shapeEmpty := false, format := 2, dtype := 0, isVariable := var }
+
+private def ewDesc (ifmVar : Bool := false) : FuseDesc :=
+  { elementwise := true, varWrite := false, memcpy := false, ofmShape := [1, 4, 4, 8], ifmShape := [1, 4, 4, 8],
+    ifm2Shape := [1, 4, 4, 8], ofmAttr := fmAttr, ifmAttr := fmAttr ifmVar, ifm2Attr := fmAttr }
+
+private def mcDesc : FuseDesc :=
+  { elementwise := false, varWrite := false, memcpy := true, ofmShape := [], ifmShape := [], ifm2Shape := [],
+    ofmAttr := fmAttr, ifmAttr := fmAttr, ifm2Attr := fmAttr }
+
+private def unary (pl : Place) (i o : Nat) : PDesc :=
+  { place := pl, pass := { reads := [i], inputs := [i], outputs := [o], ifm := some i, ifm2 := none, ofm := some o } }
+
+private def startupPass (outs : List Nat) : PDesc :=
+  { place := .startup, pass := { reads := [], inputs := [], outputs := outs, ifm := none, ifm2 := none, ofm := none } }
+
+/-- `y = CUSTOM(x)` on the CPU, `r = RESHAPE(y)` kept as a Memcpy and `z = ABS(r)` on the NPU, outputs `[y, z]`
+    (the network of /verif_patches/C01-27; tensors 0 = x, 1 = y, 2 = r, 3 = z) -/
+private def reshapeNet : Graph :=
+  { tens := [⟨0, [0], false⟩, ⟨1, [1], false⟩, ⟨2, [2], false⟩, ⟨3, [3], false⟩],
+    passes := [startupPass [0], unary .cpu 0 1, unary .npu 1 2, unary .npu 2 3],
+    outputs := [1, 3] }
+
+/-- `y = ADD(v, x)` with `v` a variable tensor, output `[y]` (tensors 0 = v, 1 = x, 2 = y) -/
+private def variableNet : Graph :=
+  { tens := [⟨0, [0], false⟩, ⟨1, [0], false⟩, ⟨2, [1], false⟩],
+    passes := [startupPass [0, 1],
+               { place := .npu, pass := { reads := [0, 1], inputs := [0, 1], outputs := [2], ifm := some 0, ifm2 := some 1,
+                                          ofm := some 2 } }],
+    outputs := [2] }
+
+/-- the rules of the unrepaired `_get_ifm_to_fuse` -/
+def unrepairedRules : FuseRules := { memcpyWp := false, elementwiseVar := false, memcpyVar := false }
+/-- the rules with /verif_patches/C01-27 and /verif_patches/C12-11 -/
+def repairedRules : FuseRules := { memcpyWp := true, elementwiseVar := true, memcpyVar := true }
+
+private def onResult (g : Graph) (f : St → Bool) : Bool :=
+  match extract g with
+  | .ok s => f s
+  | .error _ => false
+
+private theorem onResult_elim {g : Graph} {f : St → Bool} (h : onResult g f = true) : ∃ s, extract g = .ok s ∧ f s = true := by
+  unfold onResult at h
+  cases he : extract g with
+  | error e => simp [he] at h
+  | ok s => exact ⟨s, rfl, by simpa [he] using h⟩
+
+/-- **fuse_safe_memcpy_witness.**  Without "a Memcpy refuses a write protected IFM" `fuse_safe` is false: on the
+    well-formed `reshapeNet` the model (as the real code, replayed by `./check C12`: known finding
+    `write-protected-tensor-shares-memory-with-reshape-copy`) lets the Memcpy of pass 2 share the clone of `y`, which is an
+    output of the graph, and the ABS of pass 3 joins the same buffer: the Spec finds `y` destroyed by pass 3. -/
+theorem fuse_safe_memcpy_witness :
+    ∃ (g : Graph) (s : St), g.wf = true ∧ extract g = .ok s ∧ s.usedMultiple = false ∧
+      ∃ (d d' : FuseDesc) (o x a b : Nat), g.sg o ≠ 0 ∧ fused unrepairedRules g s d o = some x ∧ s.src x = some a ∧
+        a ∈ g.outputs ∧ fused unrepairedRules g s d' (o + 1) = some b ∧
+        InPlaceSpec.clobbers (progOf g []) [⟨o, a, b, true⟩, ⟨o + 1, b, b + 1, false⟩] = [(o + 1, b + 1, a)] := by
+  obtain ⟨s, hs, hf⟩ := onResult_elim (g := reshapeNet)
+    (f := fun s => !s.usedMultiple && fused unrepairedRules reshapeNet s mcDesc 2 == some 4 && s.src 4 == some 1 &&
+      fused unrepairedRules reshapeNet s ewDesc 3 == some 2) (by decide)
+  simp only [Bool.and_eq_true, Bool.not_eq_true', beq_iff_eq] at hf
+  exact ⟨reshapeNet, s, by decide, hs, hf.1.1.1, mcDesc, ewDesc, 2, 4, 1, 2, by decide, hf.1.1.2, hf.1.2, by decide, hf.2,
+    by decide⟩
+
+/-- with the repaired rules the same network is decided safely: the copy keeps its own memory, only the copy is
+    overwritten (this also shows the hypotheses of `fuse_safe` are satisfiable) -/
+example : onResult reshapeNet (fun s => reshapeNet.wf && !s.usedMultiple &&
+    fused repairedRules reshapeNet s mcDesc 2 == none && fused repairedRules reshapeNet s ewDesc 3 == some 2) = true := by decide
+
+/-- **fuse_safe_variable_witness.**  Without "a variable tensor is refused" the model (as the real code: known finding
+    `variable-tensor-overwritten-in-place-by-elementwise-operator`) chooses the clone of the variable tensor `v` of
+    `variableNet` as the input that the ADD overwrites. -/
+theorem fuse_safe_variable_witness :
+    ∃ (g : Graph) (s : St), g.wf = true ∧ extract g = .ok s ∧ s.usedMultiple = false ∧
+      ∃ (d : FuseDesc) (o x : Nat), g.sg o ≠ 0 ∧ fused unrepairedRules g s d o = some x ∧ (s.pass o).ifm = some x ∧
+        d.ifmAttr.isVariable = true := by
+  obtain ⟨s, hs, hf⟩ := onResult_elim (g := variableNet)
+    (f := fun s => !s.usedMultiple && fused unrepairedRules variableNet s (ewDesc true) 1 == some 3 &&
+      (s.pass 1).ifm == some 3) (by decide)
+  simp only [Bool.and_eq_true, Bool.not_eq_true', beq_iff_eq] at hf
+  exact ⟨variableNet, s, by decide, hs, hf.1.1, ewDesc true, 1, 3, by decide, hf.1.2, hf.2, rfl⟩
+
+/-- under the repaired rules the ADD overwrites its other operand instead (`x`, a graph input that nobody reads later) -/
+example : onResult variableNet (fun s => fused repairedRules variableNet s (ewDesc true) 1 == some 4 && s.src 4 == some 1) = true := by
+  decide
+
+/-- write protection on a boundary with two readers: `x` read by an NPU ABS (pass 1) and by a CPU operator (pass 2):
+    the clone (object 3) is protected and nothing is fused; with the CPU reader removed it is not, and the ABS works in
+    place (hypotheses of `write_protection_complete` / `fuse_safe` met) -/
+example : onResult { tens := [⟨0, [0], false⟩, ⟨1, [1], false⟩, ⟨2, [2], false⟩],
+                     passes := [startupPass [0], unary .npu 0 1, unary .cpu 0 2], outputs := [1, 2] }
+    (fun s => s.wp 3 && s.src 3 == some 0 && (s.pass 1).reads == [3]) = true := by decide
+
+example : onResult { tens := [⟨0, [0], false⟩, ⟨1, [1], false⟩], passes := [startupPass [0], unary .npu 0 1], outputs := [1] }
+    (fun s => !s.wp 2 && s.src 2 == some 0 &&
+      fused repairedRules { tens := [⟨0, [0], false⟩, ⟨1, [1], false⟩], passes := [startupPass [0], unary .npu 0 1],
+                            outputs := [1] } s ewDesc 1 == some 2) = true := by decide
 
 end VelaVerif.Props.C12
